@@ -154,7 +154,12 @@ pub enum Socks5AuthMethod {
 
 //@@ octo-squirrel/src/protocol/socks5.rs:83-97  impl Socks5AuthMethod  sha=d8a72e4c7070a4ae
 impl Socks5AuthMethod {
-    fn new(byte: u8) -> Result<Self> {
+    fn new(byte: u8) -> (r: Result<Self>)
+        ensures
+            //#C13 C03
+            // RFC 1928 3: method codes 0 (no authentication), 1 (GSSAPI), 2 (username/password), 255 (no acceptable method); everything else is refused
+            match r { Ok(m) => (byte == 0 && m is NoAuth) || (byte == 1 && m is Gssapi) || (byte == 2 && m is Password) || (byte == 255 && m is Unaccepted), Err(_) => 2 < byte < 255 },
+    {
         if Self::NoAuth as u8 == byte {
             Ok(Self::NoAuth)
         } else if Self::Gssapi as u8 == byte {
